@@ -562,6 +562,68 @@ def _under_any(body, edges, target_bb):
     return target_bb not in feasible_reach(body, 0, cut_edges=set(edges)) and target_bb in body.reachable(0)
 
 
+def _input_view(vx, e):
+    """(lo, hi) if e denotes bytes lo..hi of the decoder's input slice (parameter 1), in any spelling"""
+    e = strip_ref(e)
+    while e[0] == "cast":
+        e = strip_ref(e[1])
+    root = ("path", vx.root_name(1), ())
+    if e[0] == "call" and e[1] in INDEX and len(e[2]) == 2 and strip_ref(e[2][0]) == root:
+        r = strip_ref(e[2][1])
+        if r[0] == "agg" and r[1].endswith("Range::Range") and all(x[0] == "const" for x in r[2]):
+            return (r[2][0][1], r[2][1][1])
+        if r[0] == "agg" and r[1].endswith("RangeTo::RangeTo") and r[2][0][0] == "const":
+            return (0, r[2][0][1])
+    if e[0] == "proj" and strip_ref(e[1])[0] == "call" and strip_ref(e[1])[1].endswith(("<impl [T]>::split_at", "<impl [T]>::split_at_checked")):
+        c = strip_ref(e[1])
+        f = tuple(x for x in e[2] if x not in ("@Some",))
+        if strip_ref(c[2][0]) == root and c[2][1][0] == "const" and f in (("0",), ("0", "0")):
+            return (0, c[2][1][1])
+    if e[0] == "proj" and strip_ref(e[1])[0] == "call" and strip_ref(e[1])[1].endswith(("<impl [T]>::first_chunk", "<impl [T]>::split_first_chunk")):
+        c = strip_ref(e[1])
+        ns = [int(str(g)) for g in (c[4] if len(c) > 4 else ()) if str(g).isdigit()]
+        if strip_ref(c[2][0]) == root and len(ns) == 1:
+            return (0, ns[0])
+    return None
+
+
+def _const_bytes(crates, e, depth=0):
+    """the byte values of a constant array expression: `[0xff, 0xff]`, a named constant, `K.to_be_bytes()`"""
+    e = strip_ref(e)
+    while e[0] == "cast":
+        e = strip_ref(e[1])
+    if e[0] == "agg" and e[1] == "array" and all(x[0] == "const" and isinstance(x[1], int) for x in e[2]):
+        return tuple(x[1] for x in e[2])
+    if e[0] == "call" and e[1].endswith(("::to_be_bytes", "::to_le_bytes")) and e[2]:
+        v = e[2][0]
+        if v[0] == "const" and isinstance(v[1], str) and depth < 3:
+            v = _const_item(crates, v[1]) or v
+        w = {"u16": 2, "u32": 4, "u64": 8, "u8": 1}.get(e[1].split("<impl ")[-1].split(">")[0])
+        if v[0] == "const" and isinstance(v[1], int) and w:
+            return tuple(v[1].to_bytes(w, "big" if e[1].endswith("to_be_bytes") else "little"))
+    if e[0] == "const" and isinstance(e[1], str) and e[1].startswith("const ") and depth < 3:
+        body = _const_item(crates, e[1])
+        if body is not None:
+            return _const_bytes(crates, body, depth + 1)
+    return None
+
+
+def _const_item(crates, name):
+    name = name[len("const "):] if name.startswith("const ") else name
+    for c in crates:
+        b = c.bodies.get(name)
+        if b is not None:
+            vx = VEx(b)
+            for i in sorted(b.reachable(0)):
+                for st in b.blocks[i]["stmts"]:
+                    if st["s"] == "assign" and st["p"]["l"] == 0 and not st["p"]["p"]:
+                        return vx.rvalue(st["rv"], i)
+                t = b.blocks[i]["term"]
+                if t["t"] == "call" and t["dest"]["l"] == 0 and not t["dest"]["p"]:
+                    return ("call", callee(t), tuple(vx.operand(a, i) for a in t["args"]), i)
+    return None
+
+
 def sentinel(chk, crates):
     enc, dec = find(crates, "zvt::packets::PartialReversalReceiptNo", "usize")
     if not chk.require(enc is not None and dec is not None, "C17-d/present", "PartialReversalReceiptNo", "not found", "", nontrivial=False):
@@ -582,6 +644,27 @@ def sentinel(chk, crates):
                 if arr and sl:
                     rd.append((tuple(e[1] for e in arr[0][2] if e[0] == "const"), show(strip_ref(sl[0][2][1])), i, t["else"]))
     ok = len(rd) == 1 and rd[0][0] == (0xFF, 0xFF) and "Range{0, 2}" in rd[0][1]
+    if not ok:
+        # the same comparison in other spellings: `bytes.split_at(2).0 == [0xff, 0xff]`, a named constant array,
+        # `0xffff_u16.to_be_bytes()` ... - judged by what is compared (a view of bytes 0..2 of the input) with what (FF FF)
+        rd2 = []
+        for i in sorted(dec.reachable(0)):
+            t = dec.blocks[i]["term"]
+            if t["t"] != "switch":
+                continue
+            c = vd.operand(t["d"], i)
+            if not (c[0] == "call" and c[1] in ("core::cmp::PartialEq::eq", "core::cmp::PartialEq::ne") and len(c[2]) == 2):
+                continue
+            for a_, b_ in ((c[2][0], c[2][1]), (c[2][1], c[2][0])):
+                view = _input_view(vd, a_)
+                val = _const_bytes(crates, b_)
+                if view is not None and val is not None:
+                    zero_t = dict((v_, tb_) for v_, tb_ in t["targets"]).get(0)
+                    eq_edge = t["else"] if c[1].endswith("::eq") else zero_t
+                    rd2.append((val, "Range{%s, %s}" % view, i, eq_edge))
+                    break
+        if len(rd2) == 1 and rd2[0][0] == (0xFF, 0xFF) and rd2[0][1] == "Range{0, 2}" and rd2[0][3] is not None:
+            rd, ok = rd2, True
     if not rd:
         # the same test written byte by byte: `bytes[0] == 0xff && bytes[1] == 0xff`
         def idx_const(l):
